@@ -156,12 +156,15 @@ def run(ctx):
     # 2. spec -> code: transition cover ---------------------------------------------------------------
     covers = ["MC_cover_quick.cfg"] if quick else ["MC_cover_quick.cfg", "MC_cover_single.cfg", "MC_cover_views.cfg"]
     for cfg in (covers if "cover" in phases else []):
-        r = ctx.tlc("cache", "CacheStack", cfg=cfg, workers=1, timeout=780 * scale, deadlock=False, coverage=not quick)
+        cov = (not quick) and cfg == "MC_cover_quick.cfg"
+        r = ctx.tlc("cache", "CacheStack", cfg=cfg, workers=1, timeout=780 * scale, deadlock=False, coverage=cov)
         ctx.require_tlc_ok(r, cfg)
-        off = {"MC_cover_quick.cfg": ("PokeOp",), "MC_cover_views.cfg": ("PokeOp",), "MC_cover_single.cfg": VARIANT_ACTIONS}[cfg]
-        zero = [a for a in r.coverage_zero if a in CORE_ACTIONS + VARIANT_ACTIONS and a not in off]
-        if zero:
-            incon("%s: actions with zero coverage: %s" % (cfg, zero))
+        # vacuity guard for the operation variants that only the generation configs enable (Full = TRUE). With
+        # capacity 1 every two-key SetMultiAsync depends on map order, so SetMultiOp is disabled there by
+        # DetOnly (it is exercised by the scripts instead); no foreign writes without a Snappy layer.
+        zero = [a for a in r.coverage_zero if a in CORE_ACTIONS + VARIANT_ACTIONS and a not in ("PokeOp", "SetMultiOp")]
+        if cov and zero:
+            incon("%s: actions with zero coverage: %s" % (cfg, sorted(set(zero))))
         if r.emitted == 0:
             incon("%s emitted no behaviours" % cfg)
         env = {"VERIF_IN": r.out_path, "VERIF_MODE": "cover", "VERIF_NVIEWS": 2}
